@@ -45,6 +45,7 @@ J08p(T) == ("C08" \in Props /\ IsPaintedNullMap(T) /\ NullPre(T)) =>
 J09(T) == ("C09" \in Props /\ Ok(T)) =>
   /\ Count(3, Cardinality({x \in AllPieces(T) : Core(T, T.map[x[1]].pieces[x[2]]) # <<>> /\ Len(T.map[x[1]].pieces[x[2]].tags) > 0}))
   /\ (RoutedByTag(T) \/ Say(T, "C09.routed_by_tag", Cls(T)))
+  /\ (OneAssemblyPerHaplotype(T) \/ Say(T, "C09.one_assembly_per_haplotype", Cls(T)))
   /\ (AbsentRouted(T) \/ Say(T, "C09.absent_sequence_routed", "contig-naming=" \o T.naming \o "/scaffold-names=" \o T.style))
 J10(T) == ("C10" \in Props /\ Ok(T)) =>
   IF ~AllPlaced(T) THEN Say(T, "C10.unique_names", "piece-missing-from-output")
